@@ -590,7 +590,13 @@ func c16Evaluator(p *Prog, info *types.Info) func(e ast.Expr, lookup func(ast.Ex
 				if len(x.Args) == 3 {
 					t, pm := ev(x.Args[1], lookup), ev(x.Args[2], lookup)
 					if t.K == absConst && pm.K == absConst {
-						return absVal{K: absHelperT, Sym: exprStr(x.Args[0]), N: t.N / 100, M: pm.N / 100}
+						cls := func(n int64) int64 {
+							if n < 10 {
+								return n // the class digit itself (`code[0] = SMTPCode(err, 4, 5)`)
+							}
+							return n / 100
+						}
+						return absVal{K: absHelperT, Sym: exprStr(x.Args[0]), N: cls(t.N), M: cls(pm.N)}
 					}
 				}
 			case exterrPkg + ".SMTPEnchCode":
@@ -759,6 +765,9 @@ func c16Helpers(c *Check) {
 		// Temporary() method is temporary for IsTemporaryOrUnspec and permanent for IsTemporary, and the reply would
 		// read 451 5.x.x
 		a, b := usedPred["SMTPCode"], usedPred["SMTPEnchCode"]
+		if b == "via SMTPCode" {
+			b = a
+		}
 		if a != "" && b != "" {
 			c.Hold("R2", "exterrors.helpers:same-predicate", token.NoPos, a == b, "SMTPCode classifies with "+a+" but SMTPEnchCode with "+b+": for an error that does not say whether it is temporary (a closed connection, a plain error from a policy) the basic code and the enhanced code of one reply get different classes (451 with 5.4.0)")
 		}
@@ -812,7 +821,7 @@ func c16Helpers(c *Check) {
 			for _, d := range dec {
 				// the predicate may be negated or part of a compound condition: what the edge says about it
 				for _, af := range atomsOnEdge(d.Cond, d.Succ) {
-					if call, ok := ast.Unparen(af.E).(*ast.CallExpr); ok && isCall(info, call, exterrPkg+".IsTemporary", exterrPkg+".IsTemporaryOrUnspec") {
+					if call, ok := ast.Unparen(resolveLocal(info, fi.Decl.Body, af.E)).(*ast.CallExpr); ok && isCall(info, call, exterrPkg+".IsTemporary", exterrPkg+".IsTemporaryOrUnspec") {
 						if q := refName(callee(info, call)); usedPred[name] == "" || usedPred[name] == q {
 							usedPred[name] = q
 						} else {
@@ -824,6 +833,14 @@ func c16Helpers(c *Check) {
 							temp = 0
 						}
 					}
+				}
+			}
+			if len(ret.Results) == 1 && temp < 0 && name == "SMTPEnchCode" {
+				// the class is delegated to the sibling helper with the class digits as its two codes: the same predicate
+				// by construction
+				if v := pe.eval(ret.Results[0], env); v.K == absHelperT && v.N == 4 && v.M == 5 && len(params) > 0 && v.Sym == params[0].Name() {
+					usedPred[name] = "via SMTPCode"
+					return
 				}
 			}
 			if len(ret.Results) != 1 || temp < 0 {
@@ -849,7 +866,7 @@ func c16Helpers(c *Check) {
 				}
 			}
 		})
-		if paths < 2 && bad == "" {
+		if paths < 2 && bad == "" && usedPred[name] != "via SMTPCode" {
 			bad = "undecided: fewer than two return paths"
 		}
 		c.Hold("R2", "exterrors."+name, fi.Decl.Pos(), bad == "", bad)
